@@ -133,6 +133,15 @@ CHECKS = {
              "reported gap = gap of exactly that knowledge (certified integer numerators), bit-identical results across process counts; MetaGame.get_value returns the same quantity; "
              "best-states rows are the per-game gaps of a set of that size attaining the minimum mean, with a non-increasing curve for in-class games.",
         note="real pool schedules are not controllable (covered on the model); n=3,4"),
+    "C12": dict(
+        level="model_checking", design="§5 C12", technique="TLC on MC_Evaluate (Pool.starmap model with pickled generator copies, all schedules) + trace validation of real evaluate() runs with worker-side recording of the hidden games (Trace_Evaluate)",
+        text="TLC explores every schedule of evaluate() over the process-pool model (environments built in the parent, chunks pickled after the list exists, workers taking chunks in any "
+             "order) for R<=5/9 repetitions and P<=3/4 workers and checks that the hidden game and the solver's random stream of repetition j are functions of (seed, j) only and pairwise distinct; "
+             "the pre-repair mechanism (hidden game drawn in the worker from the chunk's pickled generator copy) is kept as a second mode that TLC must find violating. Real evaluate() runs "
+             "(4 solvers x exact and continuous generators x seeds x 1/3/8(/24) repetitions x 1..4 (quick) / 1..16 (thorough) processes) record each repetition's hidden game inside the worker; "
+             "TLC recomputes every gap curve from the recorded game and actions (row 0 = minimal information, row t+1 after the t-th recorded coalition, distinct explorable ids, early stop only "
+             "when done), demands pairwise distinct games on continuous generators and bit-identical matrices and games for every process count.",
+        note="schedules of the real pool are not controllable; independence is judged as 'no two repetitions see the same continuous-valued game'"),
 }
 
 NOT_YET = "check not built yet (build in progress; see DESIGN.md §5 for the plan)"
